@@ -38,7 +38,8 @@ def _small(u, v, rel):
       functions=["geometer.point._join_meet_duality", "geometer.point._divide_by_power_of_two", "geometer.base.Tensor.is_zero"],
       bound="join / meet of points, lines and planes (2D and 3D, all arities) whose coordinates are given as int64, float32, float64, complex64 and complex128 arrays "
             "(lattice values, also ~60000 for integers): incidence of the result with its arguments to the precision of the dtype, round trip meet(join(p,q), join(p,r)) == p, "
-            "no exception in general position; exactly dependent inputs with long-mantissa dyadic coordinates raise LinearDependenceError")
+            "no exception in general position; exactly dependent inputs with long-mantissa dyadic coordinates raise LinearDependenceError; all-pairs join / meet of a 3- and a 2-element collection "
+            "through expand_dims (3 axis choices, 2D and 3D) against the single results")
 def join_meet_dtypes(ctx):
     import geometer as g
     from geometer import exceptions as ex
@@ -146,6 +147,27 @@ def join_meet_dtypes(ctx):
                 except ex.GeometryException as err:
                     got = type(err).__name__
                 ctx.ensure("coincident-objects-in-other-representatives-raise-LinearDependenceError", got == "LinearDependenceError", witness=dict(w, call=name, factor=s, got=got))
+    # the all-pairs idiom: join(A.expand_dims(1), B.expand_dims(0))[i, j] ~ join(A[i], B[j]) (an inserted axis anywhere among the collection axes)
+    def proj_same(x, y):
+        x, y = np.asarray(x, dtype=complex).reshape(-1), np.asarray(y, dtype=complex).reshape(-1)
+        return np.linalg.matrix_rank(np.array([x / np.abs(x).max(), y / np.abs(y).max()]), tol=1e-9) == 1
+
+    for dim in (2, 3):
+        A = g.PointCollection(np.array([[1, 2, 1], [0, -1, 1], [3, 1, 2]] if dim == 2 else [[1, 2, 0, 1], [0, -1, 2, 1], [3, 1, 1, 2]], dtype=float))
+        B = g.PointCollection(np.array([[-2, 1, 1], [4, 4, 1]] if dim == 2 else [[-2, 1, 5, 1], [4, 4, -1, 1]], dtype=float))
+        for ax_a, ax_b in ((1, 0), (-2, 0), (1, -3)):
+            w = dict(dim=dim, axes=(ax_a, ax_b))
+            try:
+                R = g.join(A.expand_dims(ax_a), B.expand_dims(ax_b))
+                ok = R.shape[:2] == (3, 2) and all(proj_same(R.array[i, j], g.join(A[i], B[j]).array) for i in range(3) for j in range(2))
+                HA = g.PlaneCollection(A.array) if dim == 3 else g.LineCollection(A.array)
+                HB = g.PlaneCollection(B.array) if dim == 3 else g.LineCollection(B.array)
+                M = g.meet(HA.expand_dims(ax_a), HB.expand_dims(ax_b))
+                ok = ok and M.shape[:2] == (3, 2) and all(proj_same(M.array[i, j], g.meet(HA[i], HB[j]).array) for i in range(3) for j in range(2))
+            except Exception as err:
+                ok = False
+                w["exception"] = "%s: %s" % (type(err).__name__, str(err)[:100])
+            ctx.ensure("all-pairs-join/meet-through-expand_dims==single-results", ok, witness=w, prop=("C01",))
 
 
 @case("C09", "metric.magnitudes.lattice", [], kind="bounded", also=("C10", "C11"), share=True,
@@ -331,7 +353,8 @@ def transformation_classes_dtypes(ctx):
       functions=["geometer.curve.Sphere.radius", "geometer.curve.Sphere.center", "geometer.curve.Sphere.volume", "geometer.curve.Sphere.area", "geometer.curve.Circle.radius", "geometer.curve.Circle.center",
                  "geometer.curve.QuadricTensor.contains", "geometer.curve.QuadricTensor.dual", "geometer.curve.QuadricTensor.polar"],
       bound="spheres / circles whose quadric matrix is multiplied by f in {1, -1, 2.5, -0.01} or that were moved by a transformation with matrix f*T: radius, centre, area, volume read-backs; "
-            "contains with an explicit tol on large coordinates; class and behaviour of dual / dual.dual for Circle, Ellipse, Sphere, Conic")
+            "contains with an explicit tol on large coordinates; class and behaviour of dual / dual.dual for Circle, Ellipse, Sphere, Conic; Sphere / Circle / Ellipse with the centre given by the integer "
+            "representatives k*(1,2,3,2), k*(3,-1,2), k in {1,2,-1,4,-3}")
 def quadric_representatives(ctx):
     import geometer as g
     from geometer.curve import Sphere, Circle, Ellipse, Conic, Quadric
@@ -354,6 +377,21 @@ def quadric_representatives(ctx):
         c2.array = c.array * f
         ok = abs(float(np.real(c2.radius)) - 2.5) < 1e-9 and c2.center == g.Point(3, -4) and abs(float(np.real(c2.area)) - math.pi * 6.25) < 1e-6
         ctx.ensure("circle:read-backs-independent-of-the-matrix-representative", ok, witness=dict(w, radius=str(c2.radius)))
+    # centres given by INTEGER homogeneous representatives with last coordinate != 1 (also negative) and integer radii
+    for k in (1, 2, -1, 4, -3):
+        w = dict(scale=k)
+        try:
+            s = Sphere(g.Point(np.array([1, 2, 3, 2]) * k), 2)  # the point (0.5, 1, 1.5)
+            ok = abs(float(np.real(s.radius)) - 2) < 1e-9 and s.center == g.Point(0.5, 1, 1.5) and bool(s.contains(g.Point(2.5, 1, 1.5))) and bool(s.contains(g.Point(0.5, 1, -0.5))) \
+                and not bool(s.contains(g.Point(2, 1, 1))) and s == Sphere(g.Point(0.5, 1, 1.5), 2)
+            c = Circle(g.Point(np.array([3, -1, 2]) * k), 2)  # centre (1.5, -0.5)
+            ok = ok and abs(float(np.real(c.radius)) - 2) < 1e-9 and c.center == g.Point(1.5, -0.5) and bool(c.contains(g.Point(3.5, -0.5))) and not bool(c.contains(g.Point(3, -0.5))) and c == Circle(g.Point(1.5, -0.5), 2)
+            e = Ellipse(g.Point(np.array([3, -1, 2]) * k), 3, 2)
+            ok = ok and bool(e.contains(g.Point(4.5, -0.5))) and bool(e.contains(g.Point(1.5, 1.5))) and not bool(e.contains(g.Point(4, -0.5))) and e == Ellipse(g.Point(1.5, -0.5), 3, 2)
+        except Exception as ex:
+            ok = False
+            w["exception"] = "%s: %s" % (type(ex).__name__, str(ex)[:100])
+        ctx.ensure("sphere/circle/ellipse:centre-given-by-any-integer-homogeneous-representative", ok, witness=w, prop=("C03", "C13"))
     # explicit tolerance of contains on large coordinates
     big = Circle(g.Point(123456.0, -654321.0), 250000.0)
     on = [g.Point(123456.0 + 250000.0 * math.cos(t), -654321.0 + 250000.0 * math.sin(t)) for t in (0.3, 1.7, 4.0)]
@@ -456,7 +494,8 @@ def quadric_line_magnitudes(ctx):
 @case("C16", "membership.numeric.lattice", [], kind="bounded", also=("C17", "C19", "C20"), share=True,
       functions=["geometer.shapes.PolygonTensor.contains", "geometer.shapes.SegmentTensor.__init__", "geometer.shapes.PolytopeTensor.__eq__", "geometer.base.Tensor.__rsub__", "geometer.utils.math.null_space"],
       bound="polygon membership for queries 2**-10 above / below the level of a vertex at coordinates ~100 (both orientations); segments and polygons built from a caller's array that is modified "
-            "afterwards; == of polytopes with coordinates ~1e4 that differ by 0.05; reflected subtraction with wider dtypes / more axes on the left; null_space without dim for matrices scaled by 1e6 and 1e-17")
+            "afterwards; == of polytopes with coordinates ~1e4 that differ by 0.05; reflected subtraction with wider dtypes / more axes on the left; null_space without dim for matrices scaled by 1e6 and 1e-17; integer segments with coordinates 300..30000 x 5 queries; "
+            "point arithmetic with directions whose last coordinate is 0, 1e-12, -3e-13")
 def membership_numeric(ctx):
     import geometer as g
     from geometer.shapes import Polygon, Segment, SegmentCollection, Cuboid, Rectangle
@@ -485,6 +524,27 @@ def membership_numeric(ctx):
     Pg = Polygon(parr)
     parr[2] = [1.0, 1.0, 1.0]
     ctx.ensure("polygon-built-from-an-array-is-independent-of-later-changes-of-the-array", bool(Pg.contains(g.Point(3, 3))) and abs(float(Pg.area) - 16) < 1e-12, witness="Polygon(arr); arr[2] = ...", prop=("C16", "C17"))
+    # segments with INTEGER coordinates of magnitude 300 .. 30000 (the products inside contains must not overflow int64)
+    for M in (300, 3000, 30000):
+        for (a, b) in (((M, 0), (0, M)), ((-M, M), (M, 2 * M)), ((M, M), (3 * M, M))):
+            S = Segment(g.Point(*a), g.Point(*b))
+            mid = ((a[0] + b[0]) // 2, (a[1] + b[1]) // 2)
+            beyond = (2 * b[0] - a[0], 2 * b[1] - a[1])
+            quarter = (a[0] + (b[0] - a[0]) // 4, a[1] + (b[1] - a[1]) // 4)
+            got = [bool(S.contains(g.Point(*q))) for q in (mid, quarter, a, b, beyond)]
+            ctx.ensure("segment.contains-with-integer-coordinates-300..30000", got == [True, True, True, True, False], witness=dict(a=a, b=b, queries=[mid, quarter, a, b, beyond], got=got), prop=("C16",))
+    # a direction whose last coordinate is a rounding residue (|z| <= 1e-8: isinf is True) acts as a direction in point arithmetic as well
+    for res in (0.0, 1e-12, -3e-13):
+        d = g.Point(np.array([1.0, 2.0, res]))
+        p = g.Point(3, 4)
+        try:
+            r1, r2 = p + d, d * 2
+            pc = g.PointCollection(np.array([[1.0, 1.0, 1.0], [0.0, 1.0, res]])) + g.Point(1, 1)
+            ok = bool(d.isinf) and r1 == g.Point(4, 6) and bool(r2.isinf) and np.allclose(np.asarray(r2.array)[:2], [2, 4]) and pc[0] == g.Point(2, 2) and pc[1] == g.Point(1, 2)
+            got = str(np.asarray(r1.array).tolist())
+        except Exception as ex:
+            ok, got = False, "%s: %s" % (type(ex).__name__, str(ex)[:80])
+        ctx.ensure("point-arithmetic-treats-a-point-with-residual-last-coordinate-as-a-direction-(like-isinf)", ok, witness=dict(residue=res, got=got), prop=("C19",))
     # equality resolves differences far above the tolerance at large coordinates
     for shift in (0.05, -0.03):
         a = Rectangle(g.Point(10000, 10000), g.Point(10001, 10000), g.Point(10001, 10001), g.Point(10000, 10001))
